@@ -416,7 +416,7 @@ def op_exact(case, op):
     if name not in L.E_OPS:
         return False
     if L.low_precision(case):
-        return False  # 4-byte dtypes: 24-bit mantissa, class T with 1e-5
+        return False  # 4-byte dtypes: 24-bit mantissa, class T with 1e-4 (cancelling sums over inexact GL/HP volumes)
     if name in ("integrate", "s_integrate", "total_volume", "scalar_weight", "weight"):
         rec = case["doms"][case["fields"][op["f"]]["dom"]]
         if not all(L.nice_recipe(r) for r in rec):
@@ -710,7 +710,7 @@ def check_op(built, op):
         if not isinstance(res, ift.MultiField) or list(res.keys()) != list(exp[1].keys()):
             return (f"{label}: result is not a MultiField over the same keys", dict(sig, kind="type"))
         for k, v in exp[1].items():
-            if not _allclose(res[k].val.asnumpy(), v, 1e-5 if L.low_precision(built.case) else 1e-9):
+            if not _allclose(res[k].val.asnumpy(), v, 1e-4 if L.low_precision(built.case) else 1e-9):
                 return (f"{label}: leaf '{k}' differs from the key-wise array operation", dict(sig, kind="value"))
             if name in ("mbin", "mbins", "mun", "mclip", "mflex") and res[k].val.asnumpy().dtype != np.asarray(v).dtype:
                 return (f"{label}: leaf '{k}' has dtype {res[k].val.asnumpy().dtype}, NumPy gives {np.asarray(v).dtype}",
@@ -734,7 +734,7 @@ def check_op(built, op):
         return None
     if np.max(np.abs(np.asarray(val, dtype=np.complex128)), initial=0.0) > 2.0 ** 50:
         return None
-    tol = 1e-5 if L.low_precision(built.case) else 1e-9
+    tol = 1e-4 if L.low_precision(built.case) else 1e-9
     try:
         same = _allclose(got.reshape(np.asarray(val).shape) if got.size == np.asarray(val).size else got, val, tol)
     except Exception:  # noqa: BLE001 - a result that cannot even be compared with an array is a wrong result
@@ -875,7 +875,7 @@ def run_cases(ctx, cases, set_tuples=()):
                 continue
             impl = L.run_impl(built, op)
             exact = op_exact(case, op)
-            ok = L.agree(impl, m, exact, 1e-5 if L.low_precision(case) else L.TOL)
+            ok = L.agree(impl, m, exact, 1e-4 if L.low_precision(case) else L.TOL)
             ctx.stat("op:" + opname)
             ctx.stat("class:" + ("E" if exact else "T"))
             if "error" in m:
